@@ -1085,6 +1085,11 @@ def reshape(ctx, a, shape, origin=None, order='C'):
     a = snap(a)
     shape = to_shape(ctx, shape)
     if order != 'C':
+        if a.ndim == 1 and a.label and a.label[0] == 'flatvec':
+            # a solution vector reshaped in a non-C order does not land on the cells it was numbered for: keep the
+            # values distinguishable from the C-order ones so that the comparison with the cell numbering fails
+            nd = a.label[1](shape)
+            return Arr(nd.shape, lambda idx: Rat.atom(('reshaped-in-order-' + str(order),) + tuple(idx)), 'real', origin=origin)
         raise AnalysisError(f"reshape order {order!r} is not modelled")
     if not (shape_prod(shape) - a.size()).is_zero():
         raise AbstractRaise('ValueError', f"cannot reshape array of size {a.size()} into shape {tuple(map(str, shape))}")
